@@ -186,6 +186,16 @@ func mapAttributeValueDefinitionToDynamodb(attrs []*dynamodb.AttributeDefinition
 	return attributeDefinitions
 }
 
+func mapGlobalSecondaryIndexUpdatesToTypes(gsiUpdates []*dynamodb.GlobalSecondaryIndexUpdate) []*types.GlobalSecondaryIndexUpdate {
+	output := make([]*types.GlobalSecondaryIndexUpdate, 0, len(gsiUpdates))
+
+	for _, change := range gsiUpdates {
+		output = append(output, mapGlobalSecondaryIndexUpdateToTypes(change))
+	}
+
+	return output
+}
+
 func mapGlobalSecondaryIndexUpdateToTypes(gsiUpdate *dynamodb.GlobalSecondaryIndexUpdate) *types.GlobalSecondaryIndexUpdate {
 	if gsiUpdate == nil {
 		return nil
